@@ -218,6 +218,38 @@ theorem identify_tls_skeleton :
        ("deflate", ["UpgradeDeflate", "Send"])] ∧
     identifyTLS = ["assign tlsv1 := p.nsqd.tlsConfig != nil && identifyData.TLSv1"] := by decide
 
+/-! ### byte provenance: what the readers are built from
+
+The model's `rd` (reader generation) says: after a completed `UpgradeTLS` the connection reads from a
+*fresh* `bufio.Reader` over the `tls.Conn` and nothing else — in particular not from whatever the
+replaced plaintext reader still had in its buffer. These facts pin exactly that: the only
+assignments to `client.Reader` are the three `Upgrade*` functions, and each builds the new reader
+from the new stream alone (`c.tlsConn`, resp. the decompressor over `conn`). -/
+
+theorem reader_writers :
+    readerWrites = [("UpgradeTLS", "assign"), ("UpgradeDeflate", "assign"), ("UpgradeSnappy", "assign")] := by decide
+
+theorem upgradeTLS_reader_from_tls_only :
+    upgradeTLSStreams =
+      ["assign c.tlsConn = tlsConn",
+       "assign c.Reader = bufio.NewReaderSize(c.tlsConn, defaultBufferSize)",
+       "assign c.Writer = bufio.NewWriterSize(c.tlsConn, c.OutputBufferSize)"] := by decide
+
+theorem upgradeSnappy_reader_from_conn_only :
+    upgradeSnappyStreams =
+      ["assign conn := c.Conn",
+       "assign conn = c.tlsConn",
+       "assign c.Reader = bufio.NewReaderSize(snappy.NewReader(conn), defaultBufferSize)",
+       "assign c.Writer = bufio.NewWriterSize(snappy.NewWriter(conn), c.OutputBufferSize)"] := by decide
+
+theorem upgradeDeflate_reader_from_conn_only :
+    upgradeDeflateStreams =
+      ["assign conn := c.Conn",
+       "assign conn = c.tlsConn",
+       "assign c.Reader = bufio.NewReaderSize(flate.NewReader(conn), defaultBufferSize)",
+       "assign fw, _ := flate.NewWriter(conn, level)",
+       "assign c.Writer = bufio.NewWriterSize(fw, c.OutputBufferSize)"] := by decide
+
 theorem authState_single_writer : authStateWrites = [("QueryAuthd", "assign")] := by decide
 theorem authSecret_single_writer : authSecretWrites = [("Auth", "assign")] := by decide
 
